@@ -362,7 +362,13 @@ func vC10Scenario(name string, seed uint64) string {
 			return "stop-hangs/" + strings.Join(vParked(), ",")
 		}
 		took := time.Since(start)
-		// after Stop: a request on the TLS connection is not answered, and both sockets end
+		// Serve returns (it closes what the listener had accepted on its way out; Stop itself may return a moment earlier)
+		select {
+		case <-w.served:
+		case <-time.After(2 * time.Second):
+			return "serve-does-not-return-after-stop"
+		}
+		// after that: a request on the TLS connection is not answered, and both sockets end
 		_, _ = tc.Write([]byte("GET / HTTP/1.1\r\nHost: x\r\n\r\n"))
 		for name, c := range map[string]net.Conn{"tcp-only": plain, "tls-done": tc} {
 			c.SetReadDeadline(time.Now().Add(1500 * time.Millisecond))
@@ -557,10 +563,20 @@ func TestVerifC10(t *testing.T) {
 			defer wg.Done()
 			sem <- struct{}{}
 			defer func() { <-sem }()
-			ok, out := vRunChildEnv(t, "TestVerifC10Child", j.spec, 60*time.Second, "VERIF_CHILD_OUT="+j.out)
-			b, _ := os.ReadFile(j.out)
-			os.Remove(j.out)
-			fail := string(b)
+			// a scenario whose preconditions could not be established (its setup failed, a gate script could not be played:
+			// a matter of timing on a busy machine) has not taken place: it is played again, up to three times in all, and
+			// reported only if it cannot be played at all
+			var ok bool
+			var out, fail string
+			for attempt := 0; attempt < 3; attempt++ {
+				ok, out = vRunChildEnv(t, "TestVerifC10Child", j.spec, 60*time.Second, "VERIF_CHILD_OUT="+j.out)
+				b, _ := os.ReadFile(j.out)
+				os.Remove(j.out)
+				fail = string(b)
+				if !ok || (fail != "setup" && !strings.HasPrefix(fail, "gate-script-infeasible")) {
+					break
+				}
+			}
 			if !ok {
 				fail = "process-died-or-timed-out/" + vPanicLine(out)
 			}
